@@ -445,17 +445,28 @@ class World(object):
         params = {}
         for k, v in (op.get("params") or {}).items():
             params[k] = self.get(v[1:]) if isinstance(v, str) and v.startswith("@") else v
-        if op.get("name") is not None:
+        if op.get("name") is not None and not op.get("late_name"):
             params["name"] = op["name"]
         if "reuse_gradient" in op:
             params["reuse_gradient"] = op["reuse_gradient"]
         f = P.declare_function(self._cls(op["cls"]), **params)
+        if op.get("name") is not None and op.get("late_name"):
+            f.set_name(op["name"])
         self.bind(op["out"], f, "func")
         self.epoch["funcs"].append(op["out"])
         self.reach["class:" + op["cls"]] += 1
         if op.get("transpose_out"):
             self.bind(op["transpose_out"], f.T, "func")
             self.epoch["funcs"].append(op["transpose_out"])
+
+    def op_ofunc(self, op):
+        """A function object instantiated directly, outside any PEP (no `declare_function`)."""
+        f = self._cls(op["cls"])(**(op.get("params") or {}))
+        self.bind(op["out"], f, "func")
+
+    def op_opartition(self, op):
+        from PEPit import BlockPartition
+        self.bind(op["out"], BlockPartition(d=op["d"]), "part")
 
     def op_fexpr(self, op):
         def ev(t):
@@ -481,7 +492,11 @@ class World(object):
 
     def op_point(self, op):
         P = self.get(op["P"])
-        x = P.set_initial_point(name=op.get("name")) if op.get("name") is not None else P.set_initial_point()
+        if op.get("name") is not None and op.get("late_name"):
+            x = P.set_initial_point()
+            x.set_name(op["name"])
+        else:
+            x = P.set_initial_point(name=op.get("name")) if op.get("name") is not None else P.set_initial_point()
         self.bind(op["out"], x, "point")
 
     def op_newpoint(self, op):
@@ -497,7 +512,12 @@ class World(object):
         kw = {}
         if op.get("name") is not None:
             kw["name"] = op["name"]
-        x, g, v = f.stationary_point(return_gradient_and_function_value=True, **kw)
+        if op.get("bare"):
+            # the default route returns the point only; its gradient and value are read from the recorded sample
+            x = f.stationary_point(**kw)
+            g, v = [(g_, v_) for (x_, g_, v_) in f.list_of_stationary_points if x_ is x][-1]
+        else:
+            x, g, v = f.stationary_point(return_gradient_and_function_value=True, **kw)
         outs = op["out"]
         self.bind(outs[0], x, "point")
         self.bind(outs[1], g, "point")
@@ -519,8 +539,10 @@ class World(object):
 
     def op_gradient(self, op):
         f, x = self.get(op["f"]), self.get(op["x"])
-        kw = {"name": op["name"]} if op.get("name") is not None else {}
+        kw = {"name": op["name"]} if op.get("name") is not None and not op.get("late_name") else {}
         g = f.subgradient(x, **kw) if op.get("sub") else f.gradient(x, **kw)
+        if op.get("name") is not None and op.get("late_name"):
+            g.set_name(op["name"])
         self.bind(op["out"], g, "point")
 
     def op_value(self, op):
@@ -543,17 +565,46 @@ class World(object):
             acc += w * self.get(hname)
         return acc
 
-    def _lin(self, terms, zero):
+    def _lin(self, terms, zero, styles=None):
         acc = None
-        for hname, w in terms:
+        for k, (hname, w) in enumerate(terms):
             t = self.get(hname)
+            st = styles[k] if styles else None
+            if st is not None:
+                acc = self._styled(acc, t, w, st)
+                continue
             t = t if w == 1 and acc is not None else w * t
             acc = t if acc is None else acc + t
         return acc if acc is not None else zero
 
+    @staticmethod
+    def _styled(acc, t, w, st):
+        """Alternative spellings of `acc + w * t` that denote the same combination bit for bit."""
+        if st == "sub":
+            mt = (-w) * t
+            return -mt if acc is None else acc - mt
+        if st == "rmul":
+            term = t * w
+        elif st == "div":
+            term = t / (1.0 / w)
+        elif st == "int":
+            term = int(w) * t
+        elif st == "np":
+            term = np.float64(w) * t if w != 1 else t * np.float64(w)
+        elif st == "neg":
+            term = -t if w == -1 else -((-w) * t)
+        elif st == "bool":
+            term = True * t
+        else:
+            term = w * t
+        if acc is None:
+            return term
+        return term + acc if st == "radd" else acc + term
+
     def op_plin(self, op):
         from PEPit import null_point
-        p = self._lin_acc(op["terms"], null_point) if op.get("acc") else self._lin(op["terms"], null_point)
+        p = self._lin_acc(op["terms"], null_point) if op.get("acc") else \
+            self._lin(op["terms"], null_point, op.get("style"))
         den = {}
         for hname, w in op["terms"]:
             for k, v in self.den[hname].items():
@@ -582,7 +633,7 @@ class World(object):
 
     def op_sq(self, op):
         a = self.get(op["a"])
-        e = a ** 2
+        e = a * a if op.get("style") == "mul" else a ** 2
         den = self._den_inner(self.den[op["a"]], self.den[op["a"]])
         self.bind(op["out"], e, "expr", den=den)
         if "alg" in self.oracles and not self.den_close(den, self.den_expr(e)):
@@ -595,10 +646,13 @@ class World(object):
         if op.get("acc") and op.get("terms"):
             from PEPit import null_expression
             acc = null_expression
-        for hname, w in op.get("terms") or []:
+        styles = op.get("style")
+        for j, (hname, w) in enumerate(op.get("terms") or []):
             t = self.get(hname)
             if op.get("acc"):
                 acc += w * t
+            elif styles:
+                acc = self._styled(acc, t, w, styles[j])
             else:
                 t = t if w == 1 and acc is not None else w * t
                 acc = t if acc is None else acc + t
@@ -609,7 +663,15 @@ class World(object):
             acc = Expression(is_leaf=False, decomposition_dict={1: float(c if c is not None else 0.0)})
             den[("1",)] = float(c if c is not None else 0.0)
         elif c is not None:
-            acc = acc + c
+            cs = op.get("const_style")
+            if cs == "radd":
+                acc = c + acc
+            elif cs == "sub":
+                acc = acc - (-c)
+            elif cs == "int" and float(c).is_integer():
+                acc = acc + int(c)
+            else:
+                acc = acc + c
             den[("1",)] = den.get(("1",), 0.0) + c
         den = {k: v for k, v in den.items() if v != 0}
         self.bind(op["out"], acc, "expr", den=den)
@@ -678,6 +740,14 @@ class World(object):
     def op_psd(self, op):
         from PEPit import PSDMatrix
         entries = [[self._side(v) for v in row] for row in op["entries"]]
+        if op.get("form") == "array":
+            arr = np.empty((len(entries), len(entries)), dtype=object)
+            for i, row in enumerate(entries):
+                for j, v in enumerate(row):
+                    arr[i, j] = v
+            entries = arr
+        elif op.get("form") == "tuple":
+            entries = tuple(tuple(row) for row in entries)
         target = op.get("target")
         dens = [[(self.den[v] if isinstance(v, str) else {("1",): float(v)}) for v in row] for row in op["entries"]]
         before = len(self.created_log)
@@ -978,7 +1048,20 @@ class World(object):
             elif op.get("count_lines"):
                 self.interrupter.arm(None)
             try:
-                rec.result = P.solve(**call)
+                if cfg.get("positional"):
+                    # the documented parameter order of PEP.solve, spelled positionally
+                    order = ["wrapper", "return_primal_or_dual", "verbose", "dimension_reduction_heuristic",
+                             "eig_regularization", "tol_dimension_reduction"]
+                    defaults = {"dimension_reduction_heuristic": None, "eig_regularization": 1e-3,
+                                "tol_dimension_reduction": 1e-4}
+                    npos = int(cfg["positional"])
+                    rest = dict(call)
+                    args = []
+                    for name in order[:npos]:
+                        args.append(rest.pop(name) if name in rest else defaults[name])
+                    rec.result = P.solve(*args, **rest)
+                else:
+                    rec.result = P.solve(**call)
             finally:
                 if "interrupt" in faults or op.get("count_lines"):
                     rec.line_events = self.interrupter.disarm()
